@@ -29,7 +29,7 @@ if os.path.exists(os.path.join(dst, "meta.json")):
 try:
     for c in (a.checks.split(",") if a.checks else ALL):
         t = time.time()
-        rc, out = sh(f"VERIF_REPO={EV} ./check {c} --no-evidence", "/verif")
+        rc, out = sh(f"VERIF_REPO={EV} ./check {c} --no-evidence", os.environ.get("VERIF_SNAP", "/verif"))
         keys = sorted({l.strip().split(":", 1)[0].replace("key=", "") + ":" + l.strip().split(":")[1] for l in out.splitlines() if l.strip().startswith("key=")})
         res["checks"][c] = {"exit": rc, "violations": out.count("VIOLATION property="), "keys": keys[:8], "wall_s": round(time.time() - t)}
         if rc != 0:
